@@ -49,6 +49,7 @@ type HarnessSpec struct {
 	InjectFailures bool              `json:"inject_failures"`
 	MaxSeconds     int               `json:"max_seconds"`
 	Natural        bool              `json:"natural_models"`
+	FPPrecise      bool              `json:"fp_precise"`
 }
 
 type Job struct {
@@ -259,6 +260,7 @@ func runHarness(prog *ssa.Program, fn *ssa.Function, hs HarnessSpec, hr *Harness
 		maxPaths: hs.MaxPaths, nSamples: hs.Samples, makeSliceMax: 8, builtinStubs: map[string]string{}}
 	e.injectFailures = hs.InjectFailures
 	e.natural = hs.Natural
+	e.fpPrecise = hs.FPPrecise
 	if hs.MaxSeconds > 0 {
 		e.deadline = time.Now().Add(time.Duration(hs.MaxSeconds) * time.Second)
 	}
